@@ -618,7 +618,9 @@ pub trait AutoMerge: RemoteSyncHandler {
             return Ok(AutoMergeStatus::RewindLocal(remote));
         }
 
-        // Combine the event records
+        // Combine the event records, an event that is already
+        // in the remote patch must not be added a second time
+        local.retain(|r| !remote_commits.contains(r.commit()));
         local.extend(remote);
 
         // Sort by time so the more recent changes will win (LWW)
